@@ -5,7 +5,8 @@ from . import world as W
 odml = W.odml
 
 PVALS = [("int", [1, 2]), ("2-tuple", ["(1;2)", "(3;4)"]), ("string", ["x", "y,z"]), ("float", [1.5]),
-         ("date", [dt.date(2020, 1, 2)]), ("boolean", [True, False]), ("string", []), (None, []), ("float", [0.0])]
+         ("date", [dt.date(2020, 1, 2)]), ("boolean", [True, False]), ("string", []), (None, []), ("float", [0.0]),
+         ("float", [float("nan"), 2.5])]          # NaN: a value that is not equal to itself
 
 
 def salt_of(st):
